@@ -391,6 +391,10 @@ class Folder:
                 raise Undecidable(f"field {e.attr} of {base.cls}")
             if isinstance(base, Opaque):
                 return Opaque(f"{base.text}.{e.attr}")
+            if isinstance(base, (int, float, complex)) and not isinstance(base, bool) and e.attr in ("real", "imag"):
+                return getattr(base, e.attr)
+            if isinstance(base, sp.Basic) and e.attr in ("real", "imag"):
+                return sp.re(base) if e.attr == "real" else sp.im(base)
             if getattr(base, "_sa_model", False) and hasattr(base, e.attr) and not callable(getattr(base, e.attr)):
                 return getattr(base, e.attr)          # data attribute of a checker-side model object
             raise Undecidable(f"attribute {txt}")
@@ -555,6 +559,8 @@ class Folder:
                         r = True
                     elif d.is_number or not d.free_symbols:
                         r = False
+                    elif getattr(self, "generic_symbols", False):
+                        r = False          # symbols stand for generic values: an expression that is not identically zero is not zero
                     else:
                         raise Undecidable(f"symbolic equality {norm(node)}")
             else:
@@ -578,6 +584,7 @@ class Folder:
         sub = Folder(env=base_env, ctors=None, opaque_unknown=self.opaque_unknown, isinstance_hook=self.isinstance_hook, resolver=res,
                      resolver_factory=self.resolver_factory)
         sub.ctors = self.ctors
+        sub.generic_symbols = getattr(self, "generic_symbols", False)
         fa = fv.node.args
         names = [a.arg for a in fa.posonlyargs + fa.args]
         args = list(args)
